@@ -73,6 +73,10 @@ func c19Check(data []byte, schedule string, seed uint64, deferred bool) (kind, m
 		br := bytes.NewReader(whole)
 		_, _ = br.Seek(int64(k), io.SeekStart)
 		rd = br
+	} else if strings.HasPrefix(schedule, "kind:") {
+		var k int
+		fmt.Sscanf(schedule, "kind:%d", &k)
+		rd = readerOfKind(data, k)
 	} else if schedule == "pipe" {
 		// the read end of an OS pipe: an *os.File that is not a regular file (no size, no seeking)
 		pr, pw, perr := os.Pipe()
@@ -336,6 +340,48 @@ func c19Inputs(seed int64, thorough bool) []c19Input {
 	for _, f := range bigFiles(seed) {
 		add(f.Name, f.Bytes)
 	}
+	// the first 1 .. 7 bytes of another format's signature in front of a complete file, and a PNG
+	// whose signature has one byte damaged: every candidate sees the stream from its first byte
+	for i, s := range seeds {
+		if s.Truth.Format == "" || len(s.Bytes) < 12 {
+			continue
+		}
+		for k := 1; k <= 7; k++ {
+			if (i+k)%3 == 0 {
+				add(fmt.Sprintf("%s+png-signature-prefix-%d", s.Name, k), append(append([]byte{}, imggen.PNGSig[:k]...), s.Bytes...))
+			}
+		}
+		if s.Truth.Format == "PNG" {
+			for pos := 1; pos < 8; pos++ {
+				d := append([]byte{}, s.Bytes...)
+				d[pos] ^= 0x20
+				add(fmt.Sprintf("%s+signature-byte-%d-damaged", s.Name, pos), d)
+			}
+			for cut := 1; cut <= 8; cut++ {
+				add(fmt.Sprintf("%s[:%d]", s.Name, cut), s.Bytes[:cut])
+			}
+		}
+	}
+	// twins: files that differ only in part of the profile - same length, same first 132 bytes
+	// (header with a non-zero profile ID, tag count), same last 16 bytes - loaded one after the other
+	{
+		pa := structuredProfile(rng, 3)
+		for i := 84; i < 100; i++ {
+			pa[i] = byte(0x11 * (i - 83))
+		}
+		pb := append([]byte{}, pa...)
+		for i := 140; i < len(pb)-16; i += 3 {
+			pb[i] ^= 0x5A
+		}
+		for k, prof := range [][]byte{pa, pb, pa} {
+			jf, _ := imggen.JPEGSpec{Precision: 8, W: 40, H: 30, Comps: imggen.StdComps(3, 1, 1), Before: []imggen.JPEGSeg{imggen.ICCChunkSeg(1, 1, prof)}, ICC: prof, ICCState: "ok", Entropy: []byte{1}}.Build()
+			add(fmt.Sprintf("twin-profile jpeg #%d", k), jf)
+			wf, _ := imggen.WebPSpec{Kind: "VP8X", W: 40, H: 30, ICC: prof, Payload: []byte{1, 2}}.Build()
+			add(fmt.Sprintf("twin-profile webp #%d", k), wf)
+			pf, _ := imggen.PNGSpec{W: 40, H: 30, Depth: 8, ColorType: 2, ICC: &imggen.PNGICC{Name: "twin", Profile: prof, Level: 6}, IDAT: []byte{1}}.Build()
+			add(fmt.Sprintf("twin-profile png #%d", k), pf)
+		}
+	}
 	// bytes in front of a complete file (line ends, blanks, NULs, fill bytes, a byte-order mark):
 	// auto-detection succeeds exactly when a specific loader does
 	for i, s := range seeds {
@@ -370,7 +416,7 @@ func runC19(r *core.Run) {
 	var outcomes [3]int64
 	core.ParallelFor(len(in), 16, func(i int) {
 		x := in[i]
-		for si, sc := range []string{"all", "1", "random17", fmt.Sprintf("seeker@%d", 1+i%23), "data+eof", "4096+data+eof", "pipe", "zero-nil"} {
+		for si, sc := range []string{"all", "1", "random17", fmt.Sprintf("seeker@%d", 1+i%23), "data+eof", "4096+data+eof", "pipe", "zero-nil", fmt.Sprintf("kind:%d", 1+i%7)} {
 			if sc == "pipe" && i%4 != 0 {
 				continue
 			}
